@@ -220,6 +220,9 @@ func runSim(c *proto.Corpus, e *proto.Expected, seed uint64, proc, runs int, bui
 			break
 		}
 		rec := g.run(seed, proc, i)
+		if free {
+			rec.Policy = proto.PolicyRec{Kind: "free"}
+		}
 		o := execRun(&rec, free)
 		res.Runs++
 		res.Steps += o.sim.Steps
@@ -242,6 +245,7 @@ func runSim(c *proto.Corpus, e *proto.Expected, seed uint64, proc, runs int, bui
 		res.Faults["caller_panic"] += o.stats.panics
 		res.Faults["scribble_arg"] += o.stats.scribA
 		res.Faults["scribble_result"] += o.stats.scribR
+		res.Faults["reuse_arg_buffer"] += o.stats.reused
 		res.Faults["blocked_on_lock"] += int(o.sim.Blocked)
 		if rec.Cold {
 			res.Faults["cold"]++
